@@ -36,6 +36,7 @@ type Ctx struct {
 	files      map[string]*ast.File
 	sentinels  map[string]int
 	storesTo   map[*ssa.Global]bool // globals stored to outside init
+	frozenMemo map[*ssa.Global][]string
 	hwMemo     map[*ssa.Function]map[string]types.Type
 	funcsByKey map[string]*ssa.Function
 	repoDir    string
@@ -552,4 +553,154 @@ func (c *Ctx) guardDecl(t types.Type, mutex string) *GuardDecl {
 		}
 	}
 	return nil
+}
+
+// frozenGlobal reports whether g is a package-level slice variable of integer elements
+// that (a) is initialised by a composite literal of constants, (b) is never stored to
+// outside init, and (c) whose value is only ever indexed for reading (or measured with
+// len/cap) anywhere in the repository packages - so its contents are those constants in
+// every execution.  Returns the constants as SMT literals.
+func (c *Ctx) frozenGlobal(g *ssa.Global) ([]string, bool) {
+	if c.frozenMemo == nil {
+		c.frozenMemo = map[*ssa.Global][]string{}
+	}
+	if v, ok := c.frozenMemo[g]; ok {
+		return v, v != nil
+	}
+	c.frozenMemo[g] = nil
+	if g.Pkg == nil || !strings.HasPrefix(g.Pkg.Pkg.Path(), repoMod) || c.storesTo[g] {
+		return nil, false
+	}
+	sl, ok := g.Type().(*types.Pointer).Elem().Underlying().(*types.Slice)
+	if !ok {
+		return nil, false
+	}
+	if b, ok := sl.Elem().Underlying().(*types.Basic); !ok || b.Info()&types.IsInteger == 0 {
+		return nil, false
+	}
+	pkg := c.pkgs[g.Pkg.Pkg.Path()]
+	if pkg == nil {
+		return nil, false
+	}
+	var consts []string
+	found := false
+	for _, file := range pkg.Syntax {
+		for _, d := range file.Decls {
+			gd, ok := d.(*ast.GenDecl)
+			if !ok || gd.Tok != token.VAR {
+				continue
+			}
+			for _, sp := range gd.Specs {
+				vs := sp.(*ast.ValueSpec)
+				for i, nm := range vs.Names {
+					if nm.Name != g.Name() || len(vs.Values) != len(vs.Names) {
+						continue
+					}
+					cl, ok := vs.Values[i].(*ast.CompositeLit)
+					if !ok {
+						return nil, false
+					}
+					for _, el := range cl.Elts {
+						tv, ok := pkg.TypesInfo.Types[el]
+						if !ok || tv.Value == nil {
+							return nil, false
+						}
+						if _, isKV := el.(*ast.KeyValueExpr); isKV {
+							return nil, false
+						}
+						consts = append(consts, intLit(tv.Value))
+					}
+					found = true
+				}
+			}
+		}
+	}
+	if !found {
+		return nil, false
+	}
+	// every use in the repository: load, then only IndexAddr->load or len/cap
+	for _, fn := range c.funcsByKey {
+		var visit func(f *ssa.Function) bool
+		visit = func(f *ssa.Function) bool {
+			for _, b := range f.Blocks {
+				for _, ins := range b.Instrs {
+					for _, op := range ins.Operands(nil) {
+						if *op != ssa.Value(g) {
+							continue
+						}
+						ld, ok := ins.(*ssa.UnOp)
+						if !ok || ld.Op != token.MUL {
+							if _, isStore := ins.(*ssa.Store); isStore && (f.Name() == "init" || strings.HasPrefix(f.Name(), "init#")) {
+								continue
+							}
+							if _, isDbg := ins.(*ssa.DebugRef); isDbg {
+								continue
+							}
+							return false
+						}
+						for _, r := range *ld.Referrers() {
+							switch rr := r.(type) {
+							case *ssa.DebugRef:
+							case *ssa.IndexAddr:
+								if rr.X != ssa.Value(ld) {
+									return false
+								}
+								for _, r2 := range *rr.Referrers() {
+									if l2, ok := r2.(*ssa.UnOp); !ok || l2.Op != token.MUL {
+										if _, isDbg := r2.(*ssa.DebugRef); !isDbg {
+											return false
+										}
+									}
+								}
+							case *ssa.Call:
+								if callee := rr.Call.StaticCallee(); callee != nil && readOnlyBytesFuncs[callee.String()] {
+									continue
+								}
+								bi, ok := rr.Call.Value.(*ssa.Builtin)
+								if !ok || (bi.Name() != "len" && bi.Name() != "cap") {
+									return false
+								}
+							default:
+								return false
+							}
+						}
+					}
+				}
+			}
+			for _, an := range f.AnonFuncs {
+				if !visit(an) {
+					return false
+				}
+			}
+			return true
+		}
+		if fn.Parent() == nil && !visit(fn) {
+			return nil, false
+		}
+	}
+	// the package initialiser is not in funcsByKey when synthetic: check it stores only once
+	c.frozenMemo[g] = consts
+	return consts, true
+}
+
+// callExprAt finds the call expression whose opening parenthesis is at pos.
+func (c *Ctx) callExprAt(pos token.Pos) *ast.CallExpr {
+	p := c.fset.Position(pos)
+	f := c.files[p.Filename]
+	if f == nil {
+		return nil
+	}
+	path, _ := astutil.PathEnclosingInterval(f, pos, pos+1)
+	for _, n := range path {
+		if ce, ok := n.(*ast.CallExpr); ok && ce.Lparen == pos {
+			return ce
+		}
+	}
+	return nil
+}
+
+// library functions that only read their slice arguments and do not retain them
+var readOnlyBytesFuncs = map[string]bool{
+	"bytes.HasPrefix": true, "bytes.HasSuffix": true, "bytes.Equal": true, "bytes.Compare": true,
+	"bytes.Contains": true, "bytes.Index": true,
 }
